@@ -36,6 +36,12 @@ TRUSTED = [
     "Coq 8.16.1 kernel and vm_compute; no axioms; no extraction",
 ]
 ASSUMPTIONS = [
+    "API edit histories: half of the generated UFOs are edited after loading, identically in both builds, through the "
+    "public container API (insert_glyph, remove_glyph, rename_glyph, get_glyph_mut, and the raw Layer::entry: or_insert "
+    "of names sorting first/middle/last, and_modify, Occupied::remove) before saving; trees, post-edit state and the "
+    "reloaded fonts are compared between the builds. The MODEL covers such histories only through C06's `clean` "
+    "condition (C19_save_full_api: no raw Layer::entry access, C06's known class entry-raw); histories with raw entry "
+    "access are covered by the differential run alone",
     "each task is a logical thread; a rayon worker running tasks back to back is a schedule that does not interleave them",
     "a glif write is one step (par_save) or two steps truncate/write (par_save2, trees compared by look-up); "
     "partial writes of the byte stream itself are not modelled",
@@ -113,7 +119,10 @@ def compare(ctx, out, known_ids, threads, ufo_ids, store_replay=True):
                 b = gbase[i] if i < len(gbase) else "<end>"
                 c = next((j for j in range(min(len(a), len(b))) if a[j] != b[j]), min(len(a), len(b)))
                 lo = max(0, c - 120)
-                what = {"part": "load dump / Ok-Err status", "first_difference_line": i, "first_difference_column": c,
+                part = ("font reloaded from the saved tree" if a.lstrip().startswith(("RG", "RLAYER", "RELOAD")) else
+                        "outcome / state after the API edit script" if a.startswith(("OP", "POST")) else
+                        "load dump / Ok-Err status")
+                what = {"part": part, "first_difference_line": i, "first_difference_column": c,
                         "sequential": a[:40] + " ... " + a[lo:c + 400], "parallel": b[:40] + " ... " + b[lo:c + 400]}
             else:
                 sd = {l.split(" ", 3)[3]: l.split(" ", 3)[1:3] for l in stree if l.count(" ") >= 3}
@@ -272,6 +281,8 @@ def run(ctx, known, built):
         "input_distribution": {"ufos": len(ufo_ids), "corpus_ufos": ncorpus, "threads": THREADS, "repetitions": reps,
                                "glyphs_total": sum(g["glyphs"] for g in gen),
                                "glyphs_max": max(g["glyphs"] for g in gen), **st},
+        "ufos_with_api_edit_script": sum(1 for k in ufo_ids if os.path.exists(os.path.join(out, "ufos", k + ".json"))
+                                         and json.load(open(os.path.join(out, "ufos", k + ".json"))).get("script")),
         "model_cases": ncases,
         "model_schedule_races_exercised": races,
         "traces_validated_against_impl": ncases,
